@@ -3,6 +3,12 @@ import Qryn.Proofs.Ident
 import Qryn.Proofs.Closed
 import Qryn.Gen.Params
 import Qryn.Proofs.PlanClosed
+import Qryn.Proofs.PlanClosedMetric
+import Qryn.Proofs.PlanClosedTraceQL
+import Qryn.Proofs.SelectorClosed
+import Qryn.Proofs.Leaf
+import Qryn.Proofs.JsonParserClosed
+import Qryn.Gen.GrammarFields
 /-! # C10 — request strings can never change the structure of SQL sent to ClickHouse
 
 Property theorems only. Model: `Qryn.Sql.quote` (= `StringVal.String`, table regenerated from
@@ -157,6 +163,177 @@ theorem planLog_structure_invariant (c : LogQL.Ctx) (q : LogQL.LogQuery)
     kinds (renderSel (LogQL.planLog c q)) = kinds (renderSegs ((segsSel (LogQL.planLog c q)).map Seg.shape)) :=
   render_structure_invariant_sel _ (LogQL.wf_planLog c q ha hq)
 
+
+/-! ## Numbers, and the planners beyond the LogQL log planner -/
+
+/-- **numbers_closed.** Everything the planners print with `%d` / `strconv.Itoa` / `toString` — time bounds, limits,
+    durations, bit-set constants, shift amounts, `ctx.Id()` counters — is closed text for EVERY number: the decimal
+    text of a natural number consists of digits (one bareword), an integer has at most a leading `-`; a `%f` literal
+    (`fixedText`: integer part, point, six decimals) is one bareword. Read from a state between tokens they leave the
+    lexer between tokens. This discharges the number hypotheses of `closed_fragments_planLog_partial`. -/
+theorem numbers_closed :
+    (∀ n : Nat, (∀ d ∈ natDigits n, isDigitB d = true) ∧ natDigits n ≠ [] ∧ rawE (natDigits n) = true) ∧
+    (∀ i : Int, intText i = (if i < 0 then 45 :: natDigits i.natAbs else natDigits i.natAbs) ∧ rawE (intText i) = true) ∧
+    (∀ u s : Nat, allWord (b (fixedText u s)) = true ∧ rawE (b (fixedText u s)) = true) :=
+  ⟨fun n => ⟨natDigits_digits n, natDigits_ne_nil n, rawE_natDigits n⟩,
+   fun i => ⟨intText_eq i, rawE_intText i⟩,
+   fun u s => ⟨allWord_fixedText u s, rawE_fixedText u s⟩⟩
+
+/-- **plan_closed_log.** `closed_fragments` for the LogQL log planner at full strength: for every context whose four
+    table names are closed text (configuration) and every query of the modelled fragment whose label-FILTER names are
+    `LabelName` tokens of the LogQL lexer (class regenerated in `Gen.Lexers`; they are embedded as `'name'` without
+    escaping), the statement is well formed for its leaves. No hypothesis on any number, on matcher names/values,
+    regexes, needles, label-filter values. -/
+theorem plan_closed_log (c : LogQL.Ctx) (q : LogQL.LogQuery) (ht : LogQL.TablesOK c)
+    (hn : ∀ lc ∈ LogQL.labelConds q, LogQL.condNamesOK lc) :
+    safeSegs .normal (segsSel (LogQL.planLog c q)) = true ∧
+    kinds (renderSel (LogQL.planLog c q)) = kinds (renderSegs ((segsSel (LogQL.planLog c q)).map Seg.shape)) :=
+  have hw := LogQL.wf_planLog c q (LogQL.atomsOK_of_tables c q ht) (LogQL.queryOK_of_names q hn)
+  ⟨closed_fragments_partial _ hw, render_structure_invariant_sel _ hw⟩
+
+/-- **plan_closed_metric.** The LogQL METRIC planner model (`planMetric`: range aggregations with and without unwrap,
+    the metrics_15s shortcut, by/without, vector aggregations, topk/bottomk, comparisons, step fix, labels join,
+    matrix finalizer): for every context (tables closed) and every metric query (label-filter names `LabelName`
+    tokens) the rendered template is well formed for its string leaves and its token structure does not depend on
+    them. The by/without label names and the unwrap label need NO hypothesis: the planner passes them through the
+    escape (`mapFilterKeys`, `mapAt` leaves). Durations, `k`, comparison literals, step: digits for all values. -/
+theorem plan_closed_metric (c : LogQL.MCtx) (q : LogQL.MetricQuery) (h : LogQL.MAtomsOK c) (hn : LogQL.MetricNamesOK q) :
+    safeSegs .normal (segsSel (LogQL.planMetric c q)) = true ∧
+    kinds (renderSel (LogQL.planMetric c q)) = kinds (renderSegs ((segsSel (LogQL.planMetric c q)).map Seg.shape)) :=
+  have hw := LogQL.wf_planMetric c q h hn
+  ⟨closed_fragments_partial _ hw, render_structure_invariant_sel _ hw⟩
+
+/-- **plan_closed_traceql.** The TraceQL planner model `plan` (simple and complex scripts, aggregators, the attr-less
+    path, the random filter of complex request portions, `TracesDataPlanner`): whenever the planner accepts a script,
+    the statement is well formed for its leaves and its token structure does not depend on them. Attribute names
+    (TraceQL `Label_name` admits `-` and `.`), string values, regexes and the aggregated attribute are leaves: no
+    hypothesis. `CtxOK`: the four table names are closed text, cached trace ids (second-order text, hex from the
+    database) contain no quote or backslash. -/
+theorem plan_closed_traceql (c : TraceQL.Ctx) (hc : TraceQL.CtxOK c) (script : TraceQL.Script) (X : Sel)
+    (h : TraceQL.plan c script = .ok X) :
+    safeSegs .normal (segsSel X) = true ∧ kinds (renderSel X) = kinds (renderSegs ((segsSel X).map Seg.shape)) :=
+  have hw := TraceQL.wf_plan c hc script X h
+  ⟨closed_fragments_partial _ hw, render_structure_invariant_sel _ hw⟩
+
+/-- … the tag-names request (`PlanTagsV2`) -/
+theorem plan_closed_traceql_tags (c : TraceQL.Ctx) (hc : TraceQL.CtxOK c) (script : TraceQL.Script) (X : Sel)
+    (h : TraceQL.planTags c script = .ok X) :
+    safeSegs .normal (segsSel X) = true ∧ kinds (renderSel X) = kinds (renderSegs ((segsSel X).map Seg.shape)) :=
+  have hw := TraceQL.wf_planTags c hc script X h
+  ⟨closed_fragments_partial _ hw, render_structure_invariant_sel _ hw⟩
+
+/-- … the tag-values request (`PlanValuesV2`): the requested tag `key` is ANY byte string (a leaf) -/
+theorem plan_closed_traceql_values (c : TraceQL.Ctx) (hc : TraceQL.CtxOK c) (kvTable : String)
+    (hkv : rawE (b kvTable) = true) (key : Bytes) (script : TraceQL.Script) (X : Sel)
+    (h : TraceQL.planValues c kvTable key script = .ok X) :
+    safeSegs .normal (segsSel X) = true ∧ kinds (renderSel X) = kinds (renderSegs ((segsSel X).map Seg.shape)) :=
+  have hw := TraceQL.wf_planValues c hc kvTable hkv key script X h
+  ⟨closed_fragments_partial _ hw, render_structure_invariant_sel _ hw⟩
+
+
+/-! ## Every leaf is one literal -/
+
+/-- **leaf_single_literal.** In ANY statement whose template is well formed for its leaves (every theorem
+    `plan_closed_…` / `closed_fragments…` establishes that), each string leaf `s` — wherever it stands — is read by the
+    lexer as exactly one string literal that decodes to `s`: after the events of the text before the leaf come the
+    opening of a literal, exactly the bytes of `s`, and the close of the literal. "The user's bytes occur only inside
+    single string literals that decode to the intended value." -/
+theorem leaf_single_literal (pre post : List Seg) (s : Bytes) (h : safeSegs .normal (pre ++ .str s :: post) = true) :
+    ∃ rest, lexEv (renderSegs (pre ++ .str s :: post)) =
+      (runSegs .normal pre).2 ++ openEv (runSegs .normal pre).1 ++ s.map .sByte ++ .sClose :: rest :=
+  leaf_events pre post s h
+
+/-! ## The renderers that produce bytes directly: Prometheus matcher selection, raw-sample scan, Pyroscope selector -/
+
+/-- **fpquery_closed.** `fingerprintsQuery` (PromQL label matchers → the `fp_sel` sub-query): for every table name that is
+    closed text and EVERY list of matchers the planner accepts, the rendered text is a segment list
+    (`render = renderSegs segs`) that is well formed for its leaves, so label names, values and (anchored) regular
+    expressions sit in single literals and the token structure does not depend on them. The operators come from the
+    regenerated tables `Gen.PromSelect`; their closedness is decided over the tables. -/
+theorem fpquery_closed (table : String) (fromDate : Bytes) (tp : Int) (ms : List Prom.Matcher) (q : Prom.FpQuery)
+    (ht : rawE (Prom.ascii table) = true) (h : Prom.fingerprintsQuery table fromDate tp ms = some q) :
+    renderSegs q.segs = q.render ∧ safeSegs .normal q.segs = true ∧
+    kinds q.render = kinds (renderSegs (q.segs.map Seg.shape)) := by
+  have hq : q.table = table ∧ ∀ c ∈ q.conds, c.wf = true := by
+    unfold Prom.fingerprintsQuery at h
+    cases hc : Prom.condsOf ms with
+    | none => simp [hc] at h
+    | some cs =>
+      simp [hc] at h
+      subst h
+      exact ⟨rfl, Prom.condsOf_wf ms cs hc⟩
+  have hs := ((Prom.FpQuery.closed q (by rw [hq.1]; exact ht) hq.2) .normal rfl).1
+  refine ⟨Prom.FpQuery.render_segs q, hs, ?_⟩
+  rw [← Prom.FpQuery.render_segs q]
+  exact render_structure_invariant _ hs
+
+/-- the bounds of the raw-sample scan: two integers, closed for all values -/
+theorem scan_closed (f t : Int) :
+    renderSegs (Prom.scanSegs f t) = Prom.renderScan f t ∧ safeSegs .normal (Prom.scanSegs f t) = true :=
+  ⟨Prom.render_scanSegs f t, ((Prom.scan_closed f t) .normal rfl).1⟩
+
+/-- **pquery_closed.** The Pyroscope label selector (`StreamSelectorPlanner`): for every closed table name and EVERY
+    selector list the planner accepts — pseudo-labels (field expressions from `Gen.ProfSelect`, decided closed over the
+    table) and ordinary labels alike — the text is a segment list well formed for its leaves: label names, values,
+    regular expressions and the date bounds sit in single literals. -/
+theorem pquery_closed (table : String) (fromDate toDate : Bytes) (ss : List Prof.Selector) (q : Prof.PQuery)
+    (ht : rawE (Prom.ascii table) = true) (h : Prof.plan table fromDate toDate ss = some q) :
+    renderSegs q.segs = q.render ∧ safeSegs .normal q.segs = true ∧
+    kinds q.render = kinds (renderSegs (q.segs.map Seg.shape)) := by
+  have hq := Prof.plan_wf table fromDate toDate ss q h
+  have hs := ((Prof.PQuery.closed q (by rw [hq.1]; exact ht) hq.2.1 hq.2.2) .normal rfl).1
+  refine ⟨Prof.PQuery.render_segs q, hs, ?_⟩
+  rw [← Prof.PQuery.render_segs q]
+  exact render_structure_invariant _ hs
+
+
+/-! ## Two requests of the same shape -/
+
+/-- **same_shape_same_structure.** ONE statement over two arbitrary statements (of any planner model): when both are
+    well formed for their leaves and their segment lists agree after emptying the leaves — they "differ only in string
+    leaves" — their token-kind sequences are equal. -/
+theorem same_shape_same_structure (s1 s2 : Sel) (h1 : wfSel s1 = true) (h2 : wfSel s2 = true)
+    (hs : (segsSel s1).map Seg.shape = (segsSel s2).map Seg.shape) :
+    kinds (renderSel s1) = kinds (renderSel s2) := by
+  rw [render_structure_invariant_sel s1 h1, render_structure_invariant_sel s2 h2, hs]
+
+/-- **fpquery_two_requests.** Two PromQL matcher lists with the same match types position by position — ANY label
+    names, values, regular expressions, and any date bound — planned in the same context give statements with the same
+    token structure: `skeleton (render (plan q₁)) = skeleton (render (plan q₂))`. -/
+theorem fpquery_two_requests (table : String) (d1 d2 : Bytes) (tp : Int) (ms1 ms2 : List Prom.Matcher)
+    (q1 q2 : Prom.FpQuery) (ht : rawE (Prom.ascii table) = true) (hty : ms1.map (·.type) = ms2.map (·.type))
+    (h1 : Prom.fingerprintsQuery table d1 tp ms1 = some q1) (h2 : Prom.fingerprintsQuery table d2 tp ms2 = some q2) :
+    kinds q1.render = kinds q2.render := by
+  rw [(fpquery_closed table d1 tp ms1 q1 ht h1).2.2, (fpquery_closed table d2 tp ms2 q2 ht h2).2.2,
+    Prom.fpQuery_same_shape table d1 d2 tp ms1 ms2 q1 q2 hty h1 h2]
+
+/-- **pquery_two_requests.** Two profile selector lists that agree position by position in operator and in the class of
+    the label name (the same pseudo-label, or both ordinary labels — an ordinary label NAME is a leaf) give statements
+    with the same token structure, whatever the names, values, regular expressions and date bounds are. -/
+theorem pquery_two_requests (table : String) (f1 t1 f2 t2 : Bytes) (ss1 ss2 : List Prof.Selector) (q1 q2 : Prof.PQuery)
+    (ht : rawE (Prom.ascii table) = true) (hc : Prof.SameClasses ss1 ss2)
+    (h1 : Prof.plan table f1 t1 ss1 = some q1) (h2 : Prof.plan table f2 t2 ss2 = some q2) :
+    kinds q1.render = kinds q2.render := by
+  rw [(pquery_closed table f1 t1 ss1 q1 ht h1).2.2, (pquery_closed table f2 t2 ss2 q2 ht h2).2.2,
+    Prof.pquery_same_shape table f1 t1 f2 t2 ss1 ss2 q1 q2 hc h1 h2]
+
+/-! ## The parameters of `| json label="path"` -/
+
+/-- **json_params_closed.** The object that renders the parameters of the LogQL json parser (`sqlJsonParser`): for
+    every closed column text, EVERY list of labels and EVERY list of paths — a path part may be any byte string: a
+    field name beginning with a digit, containing quotes, brackets, comment openers — the text is well formed for
+    its leaves: each label and each part is one literal. The model writes every part as a leaf; that the code does
+    (`(sql.NewStringVal(part)).String` is the only thing assigned in the loop of `path2Sql`) is the regenerated fact
+    `Gen.JsonParser.partsEscaped`, whose extractor fails closed on any other loop body, and the `jsonparser` stream
+    compares the model's text with the real object's. -/
+theorem json_params_closed (col : Bytes) (hc : rawE col = true) (id : Nat) (labels : List Bytes) (paths : List (List Bytes)) :
+    safeSegs .normal (LogQL.jsonParserSegs col id labels paths) = true ∧
+    Gen.JsonParser.partsEscaped = true ∧ Gen.JsonParser.labelsEscaped = true :=
+  ⟨((LogQL.jsonParserSegs_closed col hc id labels paths) .normal rfl).1, rfl, rfl⟩
+
+/-- the grammar-field inventory has no duplicate entry (a key identifies one coverage obligation of the `grammar` stream) -/
+theorem grammar_fields_distinct : (Gen.grammarFields.map (fun (l, s, f, _, _) => (l, s, f))).Nodup := by decide +kernel
+
 /-- the parameter inventory has no duplicate entry (a key identifies one taint obligation) -/
 theorem inventory_keys_distinct : Gen.params.Nodup := by decide +kernel
 
@@ -228,6 +405,51 @@ example : safeSegs .normal (segsSel (LogQL.planLog exCtx exQuery)) = true :=
   closed_fragments_planLog_partial _ _ exAtoms exQueryOK
 example : safeSegs .normal (segsSel (LogQL.planLog exCtxCluster exQuery)) = true :=
   closed_fragments_planLog_partial _ _ exAtomsCluster exQueryOK
+
+-- non-vacuity of `plan_closed_log`: the hypotheses are table names and label-filter names only
+private theorem exTables : LogQL.TablesOK exCtx := ⟨by decide +kernel, by decide +kernel, by decide +kernel, by decide +kernel⟩
+private theorem exTablesCluster : LogQL.TablesOK exCtxCluster :=
+  ⟨by decide +kernel, by decide +kernel, by decide +kernel, by decide +kernel⟩
+private theorem exNames : ∀ lc ∈ LogQL.labelConds exQuery, LogQL.condNamesOK lc := by
+  intro lc h
+  simp [LogQL.labelConds, exQuery] at h
+  rcases h with rfl | rfl
+  · exact ⟨by show LogQL.LabelClass "lbl"; unfold LogQL.LabelClass; decide +kernel,
+      by show LogQL.LabelClass "x_1"; unfold LogQL.LabelClass; decide +kernel⟩
+  · show LogQL.LabelClass "a"
+    unfold LogQL.LabelClass; decide +kernel
+example := plan_closed_log exCtx exQuery exTables exNames
+example := plan_closed_log exCtxCluster exQuery exTablesCluster exNames
+-- `plan_closed_metric`: topk over a grouped sum over an unwrapped rate, hostile by-labels, unwrap label and matcher values
+private def exMCtx : LogQL.MCtx := { exCtxCluster with stepNs := 5000000000, metrics15Table := "`qryn`.metrics_15s_dist" }
+private def exMetric : LogQL.MetricQuery :=
+  .topk ⟨true, 3, .agg ⟨.sum, some ⟨true, ["a'b", "x\\"]⟩,
+    ⟨.unwrap .rate "l'--", exQuery, 60000000000, none, some ⟨false, ["';"]⟩, some ⟨.gt, ⟨1, [5]⟩⟩⟩, none, none⟩, some ⟨.le, ⟨100, []⟩⟩⟩
+example := plan_closed_metric exMCtx exMetric ⟨exTablesCluster, by decide +kernel⟩ exNames
+-- `plan_closed_traceql`: a complex script with a hostile attribute name and value, accepted by the planner
+private def exTCtx : TraceQL.Ctx := ⟨1700000000000000000, 1700003600000000000, 0, 20, true, "tempo_traces_attrs_gin",
+  "`q`.tempo_traces_attrs_gin_dist", "tempo_traces", "`q`.tempo_traces_dist", 7, 3, ["0af7651916cd43dd8448eb211c80319c"]⟩
+private def exTermA : TraceQL.Term := ⟨".a-b--c", .eq, .str [34, 39, 34] (some [39, 59, 45, 45, 92])⟩
+private def exTermD : TraceQL.Term := ⟨"duration", .gt, .dur ⟨false, [1], false, []⟩ .s⟩
+private def exScript : TraceQL.Script :=
+  [(⟨some (.leafOp exTermA .or (.leaf exTermD)), some ⟨.avg, ".x'y", .gt, ⟨true, [2], true, [5]⟩, none⟩⟩, .and),
+   (⟨some (.leaf exTermD), none⟩, .none)]
+private theorem exTCtxOK : TraceQL.CtxOK exTCtx :=
+  ⟨by decide +kernel, by decide +kernel, by decide +kernel, by decide +kernel, by decide +kernel⟩
+example : (match TraceQL.plan exTCtx exScript with | .ok _ => true | .error _ => false) = true := by decide +kernel
+example : ∀ X, TraceQL.plan exTCtx exScript = .ok X → safeSegs .normal (segsSel X) = true :=
+  fun X h => (plan_closed_traceql exTCtx exTCtxOK exScript X h).1
+example : (match TraceQL.planValues exTCtx "tempo_traces_kv" [39, 92] (exScript.take 1) with | .ok _ => true | .error _ => false) = true := by
+  decide +kernel
+
+-- `fpquery_closed` / `pquery_closed`: accepted matcher / selector lists with hostile names and values
+example : ∃ q, Prom.fingerprintsQuery "time_series_gin" [50] 2
+    [⟨[39, 45, 45], .eq, [92, 39]⟩, ⟨[97], .nre, [39, 41, 59]⟩] = some q := ⟨_, rfl⟩
+example : rawE (Prom.ascii "`qryn`.profiles_series_gin_dist") = true := by decide +kernel
+example : (Prof.plan "profiles_series_gin" [50] [51]
+    [⟨[95, 95, 110, 97, 109, 101, 95, 95], .eq, [39]⟩, ⟨[39, 92], .re, [47, 42]⟩]).isSome = true := by decide +kernel
+-- `json_params_closed`: a field name that begins with a digit and closes a call
+example := json_params_closed (b "string") (by decide +kernel) 0 [[120]] [[[48, 39, 41, 32, 45, 45], [97]], []]
 -- the string leaves of the nodes added for the TraceQL and the LogQL metric planners (`anyIfNum`, `mapAt`,
 -- `mapFilterKeys`) with hostile keys
 example : safeSegs .normal (segsExpr (.callT "bitAnd" [.anyIfNum [39, 92], .mapAt (.raw "labels") [39, 45, 45],
